@@ -29,8 +29,8 @@ ASSUMPTIONS = [
     "enable = 1, usb_reset = 0 (C37: link stays in U0); accept/acknowledge_power_state tied 0",
     "timing bound used for 'offered': an accepted header is visible on `queue` 3 cycles after its last word",
 ]
-BOUNDS = "BMC from reset; quick: 2 headers K=30 and 3 headers K=36 (restricted layer); thorough: 3 headers K=40 free, " \
-         "5 headers K=52 restricted layers"
+BOUNDS = "BMC from reset; required: 2 headers K=33 and 3 headers K=43 in the layer (PHY always ready, no LRTY/keepalive/LXU " \
+         "requests); best effort (may time out): PHY ready free / interleaved commands free; thorough adds 5 headers K=49, gaps"
 OUTSIDE = "ill-framed headers; headers arriving without credit; more than 5 headers per trace; liveness of LGOOD/LBAD/LCRD " \
           "beyond the bound (safety: counts and numbers; reachability by cover twins)"
 
@@ -340,26 +340,29 @@ def queries(tier):
     hint = {"*": {"retry_required": 0, "keepalive": 0, "lxu": 0, "src_ready": 1}}
     cmd_asserts = ["offer_valid", "lgood_number", "lbad_cause", "lcrd_order", "lcrd_free", "adv_first", "lc_format"]
     K2 = f2().K
-    qs.append(Query("bmc_2hp_plain", f2, K2 if quick else K2 + 6, layer=_NO_EXTRA, timeout=900, hints=hint, split=False,
+    calm_ready = dict(_NO_EXTRA, src_ready=1)
+    qs.append(Query("bmc_2hp_order", f2, K2 if quick else K2 + 6, layer=calm_ready, timeout=2000, hints=hint, split=False,
                     covers=["delivered_k1", "lgood_ack", "lbad_sent", "adv_done", "four_credits", "lcrd_after_free"],
-                    desc="layer: no LRTY/keepalive/LXU requests; 2 symbolic headers (content, sequence numbers, CRC "
-                         "corruption), PHY ready, protocol-layer consumption and partner retry free every cycle"))
-    qs.append(Query("bmc_2hp_busy", f2, K2, layer={"src_ready": 1}, asserts=cmd_asserts, covers=[], timeout=900, split=False,
-                    desc="layer: PHY always ready; LRTY/keepalive/LXU requests free (interleaved commands); "
-                         "link-command assertions"))
-    qs.append(Query("bmc_3hp_plain", f3, f3().K, layer=dict(_NO_EXTRA, src_ready=1), timeout=900, hints=hint, split=False,
+                    desc="layer: PHY always ready, no LRTY/keepalive/LXU requests; 2 symbolic headers (content, sequence "
+                         "numbers, CRC corruption); protocol-layer consumption and partner retry free every cycle; all "
+                         "assertions"))
+    qs.append(Query("bmc_3hp_plain", f3, f3().K, layer=calm_ready, timeout=2000, hints=hint, split=False,
                     covers=["ignored_then_accepted", "wrong_seq_dropped"],
                     desc="layer: PHY always ready, no LRTY/keepalive/LXU; 3 symbolic headers (bad header, ignored header, "
                          "retry, wrong sequence number), consumption and retry free"))
+    qs.append(Query("bmc_2hp_stall", f2, K2, layer=_NO_EXTRA, asserts=cmd_asserts + ["offer_missing"], covers=[],
+                    timeout=600 if quick else 2000, split=False, required=False,
+                    desc="best effort: PHY ready free every cycle (no LRTY/keepalive/LXU); all but the delivery-order comparison"))
+    qs.append(Query("bmc_2hp_busy", f2, K2, layer={"src_ready": 1}, asserts=cmd_asserts, covers=[],
+                    timeout=600 if quick else 2000, split=False, required=False,
+                    desc="best effort: LRTY/keepalive/LXU requests free (interleaved commands), PHY always ready"))
     if not quick:
-        qs.append(Query("bmc_2hp_free", f2, K2, timeout=900, covers=[], split=False, required=False,
-                        desc="best effort: everything free"))
         f5 = lambda: HeaderRxHarness(n_packets=5, lead=9, spacing=1)
-        qs.append(Query("bmc_5hp_ready", f5, f5().K, layer=dict(_NO_EXTRA, src_ready=1), covers=[], timeout=900, split=False,
+        qs.append(Query("bmc_5hp_ready", f5, f5().K, layer=calm_ready, covers=[], timeout=2000, split=False,
                         desc="layer: PHY always ready, no LRTY/keepalive/LXU; 5 headers (buffer wrap-around, "
                              "credit re-issue), consumption free"))
         fg = lambda: HeaderRxHarness(n_packets=2, lead=9, spacing=2, gaps=(2, 4))
-        qs.append(Query("bmc_2hp_gaps", fg, fg().K, layer=_NO_EXTRA, covers=[], timeout=900, split=False,
-                        desc="2 headers with invalid cycles inside them; no LRTY/keepalive/LXU"))
+        qs.append(Query("bmc_2hp_gaps", fg, fg().K, layer=calm_ready, covers=[], timeout=2000, split=False,
+                        desc="2 headers with invalid cycles inside them; PHY always ready, no LRTY/keepalive/LXU"))
     qs.append(Query("cosim", f3, 0, kind="cosim", cosim_cycles=120 if quick else 600))
     return qs
